@@ -49,11 +49,31 @@ class Checker:
         self.minimum: dict[str, int] = {}
         self.notes: list[str] = []
         self.paths_examined = 0
+        self._alias = None
 
     # -- declaring rules -------------------------------------------------
     def rule(self, rid: str, text: str, minimum: int = 1):
+        if self._alias is not None:
+            return  # rules of another property run under one rule of this property (see as_rule)
         self.rules[rid] = text
         self.minimum[rid] = minimum
+
+    def as_rule(self, rid: str, text: str, minimum: int = 1):
+        """Context manager: run rule code written for another property and record its obligations under the single
+        rule `rid` of this property (the original rule id is kept as a prefix of the obligation's detail).  Used where
+        one mechanism carries clauses of several properties."""
+        from contextlib import contextmanager
+
+        @contextmanager
+        def cm():
+            self.rule(rid, text, minimum)
+            prev, self._alias = self._alias, rid
+            try:
+                yield self
+            finally:
+                self._alias = prev
+
+        return cm()
 
     def analysed_func(self, f: FuncInfo, cfg=None):
         d = self.analysed.setdefault(f.key, {'where': f.where})
@@ -63,6 +83,9 @@ class Checker:
 
     # -- recording obligations ------------------------------------------
     def ob(self, rule, f: FuncInfo | str, node, ok, detail, path='', nontrivial=True):
+        if self._alias is not None:
+            detail = f'[{rule}] {detail}'
+            rule = self._alias
         if rule not in self.rules:
             raise AnalysisError(f'rule {rule} used but not declared')
         if isinstance(f, FuncInfo):
